@@ -2,12 +2,12 @@
   C19 — block addressing and checksum accounting are exact and complete.
   Property theorems only; helper lemmas are in Proofs/Block.lean, BlockRead.lean, BlockGrammar.lean,
   SegmentMulti.lean, ChecksumAcct.lean, PgChecksum.lean.  The models are those of the repaired code
-  (/verif/fixes/block 01–10).  Files are the `fs` parameter (a file = its bytes, `none` = cannot be
+  (/verif/fixes/block 01–11).  Files are the `fs` parameter (a file = its bytes, `none` = cannot be
   opened); `hex.Dump` and the checksum function are parameters.
 
-  What is NOT proved here, on purpose: that a checksum verdict is the one PostgreSQL gives.  The accounting theorems
-  hold for any checksum function `ck`; the tool's own function is not PostgreSQL's `pg_checksum_page` (open finding
-  `C19-checksum-not-postgres`, last section).
+  The accounting theorems hold for any checksum function `ck`; the last section shows that the tool's own function
+  (since fix 11) is PostgreSQL's `pg_checksum_page`, so that the verdicts are PostgreSQL's (`C19_checksum_postgres`,
+  `C19_verdict_postgres`; finding `C19-checksum-not-postgres` repaired).
 -/
 import PgVerif.Proofs.BlockRead
 import PgVerif.Proofs.BlockGrammar
@@ -527,72 +527,128 @@ theorem C19_copy_field (page : Bytes) (bn : Nat) (x y : UInt8) (h : 10 ≤ page.
   unfold computePageChecksum
   rw [hc]
 
-/-! ## the verdict against PostgreSQL's `pg_checksum_page` (open finding `C19-checksum-not-postgres`)
+/-! ## the verdict against PostgreSQL's `pg_checksum_page` (finding `C19-checksum-not-postgres`, repaired by fix 11)
 
 Everything above holds for ANY checksum function `ck`: it is accounting.  Whether a verdict is the one PostgreSQL
-gives depends on `ck` being `pg_checksum_page` — and the tool's `computePageChecksum` is not that function.  The Spec
-of the real algorithm (`Spec/PgChecksum.lean`) has the 32 base offsets as a parameter `offs` (the constants are not
-available in this sandbox and are not invented), so the statements below are for every table. -/
+gives depends on `ck` being `pg_checksum_page` (`Spec/PgChecksum.lean`: 32 FNV-1a lanes seeded with
+`checksumBaseOffsets`, `CHECKSUM_COMP`, two rounds of zeroes, xor of the lanes, `^ blkno`, `% 65535 + 1`, over the
+page with `pd_checksum` taken as zero) — and since fix 11 the tool's `computePageChecksum` is that function. -/
 
 section Postgres
 open PgVerif.Spec.PgChecksum PgVerif.Proofs.PgChecksum
 
-/-- PARTIAL (the carve-out is the hypothesis `hagree`): on a full block that is all-zero or not new
-(`pd_upper ≠ 0`), IF the tool's function gives the value of PostgreSQL's `pg_checksum_page` for this block and
-number, THEN the tool's verdict (`Valid`) is PostgreSQL's verdict.  What is missing: `hagree` itself — it is false
-in general (`C19_checksum_not_postgres`), because `computePageChecksum` is a home-made rotate/xor fold and not the
-32-lane FNV-1a of checksum_impl.h; on a cluster with data checksums the tool's verdicts are therefore not
-PostgreSQL's.  Recorded as open finding `C19-checksum-not-postgres` (class tag `kf:C19-checksum-not-postgres`). -/
-theorem C19_verdict_postgres_partial (offs : List Nat) (page : Bytes) (bn : Nat) (hlen : page.length = 8192)
-    (hnew : Spec.PgChecksum.allZero page = true ∨ pdUpper page ≠ 0)
-    (hagree : computePageChecksum page bn = pgChecksumPage offs page bn) :
-    ∃ r, verifyPageChecksum computePageChecksum page bn = .ok r ∧ some r.valid = pageVerdict offs page bn := by
+/-- For EVERY 8192-byte page and EVERY block number: the tool's `computePageChecksum` (the model of the Go code, with
+the uint32 wrap-around of every product, `% 2^32`) returns exactly PostgreSQL's `pg_checksum_page(page, blkno)`. -/
+theorem C19_checksum_postgres (page : Bytes) (bn : Nat) (hlen : page.length = 8192) :
+    computePageChecksum page bn = pgChecksumPage page bn :=
+  computePageChecksum_eq_pg page bn hlen
+
+/-- The verdict of VerifyPageChecksum, for EVERY 8192-byte page and every block number: an all-zero page is reported
+as such (valid, stored and computed value 0); for any other page the reported stored value is `pd_checksum`, the reported
+computed value is `pg_checksum_page(page, blkno)`, and `Valid` holds exactly when the two are equal. -/
+theorem C19_verdict_postgres (page : Bytes) (bn : Nat) (hlen : page.length = 8192) :
+    ∃ r, verifyPageChecksum computePageChecksum page bn = .ok r ∧
+      (Spec.PgChecksum.allZero page = true → r.valid = true ∧ r.stored = 0 ∧ r.computed = 0) ∧
+      (Spec.PgChecksum.allZero page = false →
+        r.stored = pdChecksum page ∧ r.computed = pgChecksumPage page bn ∧
+        (r.valid = true ↔ pdChecksum page = pgChecksumPage page bn)) := by
   by_cases hz : Model.allZero page = true
-  · refine ⟨⟨bn, 0, 0, true, 0, ""⟩, ?_, ?_⟩
+  · refine ⟨⟨bn, 0, 0, true, 0, ""⟩, ?_, fun _ => ⟨rfl, rfl, rfl⟩, ?_⟩
     · unfold verifyPageChecksum
       have h1 : ¬ page.length < 8192 := by omega
       simp only [h1, hz, if_false, if_true, pure_eq_ok]
-    · unfold pageVerdict
+    · intro h
       have : Spec.PgChecksum.allZero page = true := hz
-      simp only [this, if_true]
+      rw [this] at h
+      cases h
   · have hz' : Model.allZero page = false := by simpa using hz
-    have hzs : Spec.PgChecksum.allZero page = false := hz'
+    refine ⟨_, verifyPageChecksum_full computePageChecksum page bn hlen hz', ?_, ?_⟩
+    · intro h
+      have : Spec.PgChecksum.allZero page = false := hz'
+      rw [this] at h
+      cases h
+    · intro _
+      have hst : storedCk page = pdChecksum page := rfl
+      refine ⟨hst, computePageChecksum_eq_pg page bn hlen, ?_⟩
+      show (storedCk page == computePageChecksum page bn) = true ↔ _
+      rw [hst, computePageChecksum_eq_pg page bn hlen]
+      exact beq_iff_eq
+
+/-- … in the Spec's terms (`pageVerdict`: bufpage.c `PageIsVerifiedExtended` / pg_checksums.c `scan_file`): on a full
+block that is all-zero or not new (`pd_upper ≠ 0`) the tool's `Valid` is PostgreSQL's verdict. -/
+theorem C19_verdict_pageVerdict (page : Bytes) (bn : Nat) (hlen : page.length = 8192)
+    (hnew : Spec.PgChecksum.allZero page = true ∨ pdUpper page ≠ 0) :
+    ∃ r, verifyPageChecksum computePageChecksum page bn = .ok r ∧ some r.valid = pageVerdict page bn := by
+  obtain ⟨r, hr, h1, h2⟩ := C19_verdict_postgres page bn hlen
+  refine ⟨r, hr, ?_⟩
+  unfold pageVerdict
+  cases hz : Spec.PgChecksum.allZero page with
+  | true => simp only [if_true, (h1 hz).1]
+  | false =>
     have hu : pdUpper page ≠ 0 := by
       rcases hnew with h | h
-      · rw [hzs] at h; cases h
+      · rw [hz] at h; cases h
       · exact h
-    refine ⟨_, verifyPageChecksum_full computePageChecksum page bn hlen hz', ?_⟩
-    unfold pageVerdict
-    simp only [hzs, Bool.false_eq_true, if_false, hu, hagree]
-    rfl
+    simp only [Bool.false_eq_true, if_false, hu]
+    obtain ⟨_, _, hv⟩ := h2 hz
+    cases hb : r.valid with
+    | true =>
+      have := hv.mp hb
+      simp [this]
+    | false =>
+      have : ¬ pdChecksum page = pgChecksumPage page bn := fun h => by rw [hv.mpr h] at hb; cases hb
+      simp [this]
 
-/-- The open finding, machine-checked and for EVERY base-offset table: there is a full, non-new block
-(`witnessPage`: an empty heap page with stored checksum 0, as block 0) that the tool reports VALID
-(`computePageChecksum` gives 0 = the stored value) and PostgreSQL reports INVALID (`pg_checksum_page` is never 0). -/
-theorem C19_checksum_not_postgres :
+/-- non-vacuity: the empty heap page of `PageInit` (8192 bytes, not all-zero, `pd_upper` = 8192) has
+`pg_checksum_page` 0x6560 / 0x655F / 0x655D as block 0 / 1 / 7 (the values known from two independent computations) -/
+example : emptyHeapPage.length = 8192 ∧ Spec.PgChecksum.allZero emptyHeapPage = false ∧ pdUpper emptyHeapPage ≠ 0 ∧
+    pgChecksumPage emptyHeapPage 0 = 0x6560 ∧ pgChecksumPage emptyHeapPage 1 = 0x655F ∧
+    pgChecksumPage emptyHeapPage 7 = 0x655D :=
+  ⟨by decide +kernel, by decide +kernel, by decide +kernel, emptyHeapPage_checksums⟩
+
+/-- The file-level result with PostgreSQL's function: VerifyFileChecksums (as the tool runs it, with
+`computePageChecksum`) lists exactly the blocks that are not all-zero and whose stored `pd_checksum` differs from
+`pg_checksum_page(block, segment·131072 + i)` — the closed form `fileResult` of `C19_cksum_file` taken at
+PostgreSQL's function, for EVERY byte string and segment number. -/
+theorem C19_cksum_file_postgres (data : Bytes) (seg : Nat) :
+    verifyFileChecksums computePageChecksum data seg = .ok (fileResult pgChecksumPage data seg) := by
+  rw [verifyFileChecksums_eq]
+  congr 1
+  exact fileResult_congr computePageChecksum pgChecksumPage data seg
+    (fun page bn h => computePageChecksum_eq_pg page bn h)
+
+/-- The regression record of the repaired finding: BEFORE fix 11 the tool's function (`Orig.computePageChecksum`, a
+rotate/xor fold) reported the block `witnessPage` (an empty heap page with stored checksum 0, as block 0) VALID, while
+PostgreSQL reports it INVALID (`pg_checksum_page` is never 0); the repaired function reports it invalid. -/
+theorem C19_checksum_not_postgres_before_fix :
     ∃ page bn, page.length = 8192 ∧ pdUpper page ≠ 0 ∧
-      (∃ r, verifyPageChecksum computePageChecksum page bn = .ok r ∧ r.valid = true) ∧
-      ∀ offs, pageVerdict offs page bn = some false ∧ computePageChecksum page bn ≠ pgChecksumPage offs page bn := by
-  refine ⟨witnessPage, 0, witnessPage_length, by rw [witnessPage_upper]; decide, ?_, ?_⟩
-  · refine ⟨_, verifyPageChecksum_full computePageChecksum witnessPage 0 witnessPage_length witnessPage_not_zero, ?_⟩
-    show (storedCk witnessPage == computePageChecksum witnessPage 0) = true
-    rw [witnessPage_tool]
+      (∃ r, verifyPageChecksum Orig.computePageChecksum page bn = .ok r ∧ r.valid = true) ∧
+      pageVerdict page bn = some false ∧
+      (∃ r, verifyPageChecksum computePageChecksum page bn = .ok r ∧ r.valid = false) := by
+  refine ⟨witnessPage, 0, witnessPage_length, by rw [witnessPage_upper]; decide, ?_, ?_, ?_⟩
+  · refine ⟨_, verifyPageChecksum_full Orig.computePageChecksum witnessPage 0 witnessPage_length witnessPage_not_zero, ?_⟩
+    show (storedCk witnessPage == Orig.computePageChecksum witnessPage 0) = true
+    rw [witnessPage_tool_orig]
     have : storedCk witnessPage = 0 := witnessPage_stored
     rw [this]
     rfl
-  · intro offs
-    refine ⟨pageVerdict_stored_zero offs witnessPage 0 witnessPage_not_zero' (by rw [witnessPage_upper]; decide)
-      witnessPage_stored, ?_⟩
-    rw [witnessPage_tool]
-    have := (pgChecksumPage_range offs witnessPage 0).1
-    omega
+  · exact pageVerdict_stored_zero witnessPage 0 witnessPage_not_zero' (by rw [witnessPage_upper]; decide) witnessPage_stored
+  · refine ⟨_, verifyPageChecksum_full computePageChecksum witnessPage 0 witnessPage_length witnessPage_not_zero, ?_⟩
+    show (storedCk witnessPage == computePageChecksum witnessPage 0) = false
+    rw [computePageChecksum_eq_pg _ _ witnessPage_length]
+    have : storedCk witnessPage = 0 := witnessPage_stored
+    rw [this]
+    have := (pgChecksumPage_range witnessPage 0).1
+    cases hc : pgChecksumPage witnessPage 0 with
+    | zero => omega
+    | succ n => rfl
 
-/-- `pg_checksum_page` never returns 0 and does not depend on the stored checksum field, for every table. -/
-theorem C19_pg_checksum_page_facts (offs : List Nat) (page : Bytes) (bn : Nat) :
-    (1 ≤ pgChecksumPage offs page bn ∧ pgChecksumPage offs page bn ≤ 65535) ∧
+/-- `pg_checksum_page` never returns 0 and does not depend on the stored checksum field. -/
+theorem C19_pg_checksum_page_facts (page : Bytes) (bn : Nat) :
+    (1 ≤ pgChecksumPage page bn ∧ pgChecksumPage page bn ≤ 65535) ∧
     (∀ x y : UInt8, 10 ≤ page.length →
-      pgChecksumPage offs (page.take 8 ++ [x, y] ++ page.drop 10) bn = pgChecksumPage offs page bn) :=
-  ⟨pgChecksumPage_range offs page bn, fun x y h => pgChecksumPage_field offs page bn x y h⟩
+      pgChecksumPage (page.take 8 ++ [x, y] ++ page.drop 10) bn = pgChecksumPage page bn) :=
+  ⟨pgChecksumPage_range page bn, fun x y h => pgChecksumPage_field page bn x y h⟩
 
 end Postgres
 
